@@ -15,11 +15,18 @@ namespace fastscapelib
         template <class G>
         struct grid_node_index_iterator
             : public xtl::xbidirectional_iterator_base<grid_node_index_iterator<G>,
+                                                       typename G::size_type,
+                                                       std::ptrdiff_t,
+                                                       const typename G::size_type*,
                                                        typename G::size_type>
         {
         public:
             using self_type = grid_node_index_iterator<G>;
-            using base_type = xtl::xbidirectional_iterator_base<self_type, typename G::size_type>;
+            using base_type = xtl::xbidirectional_iterator_base<self_type,
+                                                                typename G::size_type,
+                                                                std::ptrdiff_t,
+                                                                const typename G::size_type*,
+                                                                typename G::size_type>;
 
             using value_type = typename base_type::value_type;
             using reference = typename base_type::reference;
